@@ -27,7 +27,30 @@ def _levels(vals, width):
     return struct.pack("<I", len(body)) + body
 
 
-def build(path, defi, rep, splits, opt_list, opt_elem, maxd):
+def _v2_page(pt, d, r, wd, nv, vi, maxd):
+    """DATA_PAGE_V2 with RLE_DICTIONARY values (indices vi..vi+nv-1 into a dictionary page), levels without the
+    4-byte length prefix, not compressed"""
+    rl, dl = _levels(r, 1)[4:], _levels(d, wd)[4:]
+    idx = list(range(vi, vi + nv))
+    w = 4
+    vals = bytes([w])
+    if idx:
+        groups = (len(idx) + 7) // 8
+        bits = 0
+        for i, v in enumerate(idx + [0] * (groups * 8 - len(idx))):
+            bits |= v << (i * w)
+        vals += _uleb((groups << 1) | 1) + bits.to_bytes(groups * w, "little")
+    body = rl + dl + vals
+    nn = sum(1 for x in d if x != maxd)
+    ph = pt.PageHeader(type=3, uncompressed_page_size=len(body), compressed_page_size=len(body),
+                       data_page_header_v2=pt.DataPageHeaderV2(
+                           num_values=len(d), num_nulls=nn, num_rows=sum(1 for x in r if x == 0), encoding=8,
+                           definition_levels_byte_length=len(dl), repetition_levels_byte_length=len(rl),
+                           is_compressed=False, i32=1), i32=1)
+    return bytes(ph.to_bytes()) + body
+
+
+def build(path, defi, rep, splits, opt_list, opt_elem, maxd, version=1, encs=None):
     from fastparquet import parquet_thrift as pt
     from fastparquet.cencoding import ThriftObject
     thr = 2 if opt_list else 1
@@ -36,11 +59,43 @@ def build(path, defi, rep, splits, opt_list, opt_elem, maxd):
     start = len(data)
     bounds = [0] + list(splits) + [len(rep)]
     vi = 0
+    dict_off = None
+    if version == 2 or (encs and "d" in encs):
+        total = sum(1 for x in defi if x == maxd and x >= thr)
+        assert total <= 15
+        body = b"".join(struct.pack("<q", 100 + j) for j in range(total))
+        ph = pt.PageHeader(type=2, uncompressed_page_size=len(body), compressed_page_size=len(body),
+                           dictionary_page_header=pt.DictionaryPageHeader(num_values=total, encoding=0, i32=1), i32=1)
+        dict_off = start
+        data += bytes(ph.to_bytes()) + body
+    first_data = len(data)
     for a, b in zip(bounds[:-1], bounds[1:]):
         if a == b:
             continue
         d, r = defi[a:b], rep[a:b]
         nv = sum(1 for x in d if x == maxd and x >= thr)
+        if version == 2:
+            data += _v2_page(pt, d, r, wd, nv, vi, maxd)
+            vi += nv
+            continue
+        if encs and encs[len([x for x in bounds[1:] if x <= a and x > 0])] == "d":
+            # v1 page with RLE_DICTIONARY values: bit width byte, one bit-packed run of indices
+            idx, w = list(range(vi, vi + nv)), 5
+            vals = bytes([w])
+            if idx:
+                groups = (len(idx) + 7) // 8
+                bits = 0
+                for i, v in enumerate(idx + [0] * (groups * 8 - len(idx))):
+                    bits |= v << (i * w)
+                vals += _uleb((groups << 1) | 1) + bits.to_bytes(groups * w, "little")
+            vi += nv
+            body = _levels(r, 1) + _levels(d, wd) + vals
+            ph = pt.PageHeader(type=0, uncompressed_page_size=len(body), compressed_page_size=len(body),
+                               data_page_header=pt.DataPageHeader(num_values=len(d), encoding=8,
+                                                                  definition_level_encoding=3,
+                                                                  repetition_level_encoding=3, i32=1), i32=1)
+            data += bytes(ph.to_bytes()) + body
+            continue
         vals = b"".join(struct.pack("<q", 100 + vi + j) for j in range(nv))
         vi += nv
         body = _levels(r, 1) + _levels(d, wd) + vals
@@ -50,9 +105,10 @@ def build(path, defi, rep, splits, opt_list, opt_elem, maxd):
                                                               repetition_level_encoding=3, i32=1), i32=1)
         data += bytes(ph.to_bytes()) + body
     size = len(data) - start
-    md = pt.ColumnMetaData(type=2, encodings=[0, 3], path_in_schema=["col", "list", "element"], codec=0,
+    md = pt.ColumnMetaData(type=2, encodings=[0, 3] + ([8] if version == 2 else []),
+                           path_in_schema=["col", "list", "element"], codec=0,
                            num_values=len(rep), total_uncompressed_size=size, total_compressed_size=size,
-                           data_page_offset=start)
+                           data_page_offset=first_data, dictionary_page_offset=dict_off)
     nrows = sum(1 for x in rep if x == 0)
     rg = pt.RowGroup(columns=[pt.ColumnChunk(file_offset=start, meta_data=md)], total_byte_size=size,
                      num_rows=nrows)
@@ -68,23 +124,23 @@ def build(path, defi, rep, splits, opt_list, opt_elem, maxd):
         f.write(bytes(data))
 
 
-def replay_list(defi, rep, splits, opt_list, opt_elem, maxd, want):
+def replay_list(defi, rep, splits, opt_list, opt_elem, maxd, want, version=1, encs=None):
     import shutil, tempfile
     import fastparquet
     d = tempfile.mkdtemp(prefix="c15-")
     try:
         fn = os.path.join(d, "nested.parq")
-        build(fn, defi, rep, splits, opt_list, opt_elem, maxd)
+        build(fn, defi, rep, splits, opt_list, opt_elem, maxd, version=version, encs=encs)
         try:
             out = fastparquet.ParquetFile(fn).to_pandas()["col"].tolist()
         except Exception as ex:
-            return True, "LIST column (def=%r rep=%r pages split at %r, list %s, element %s) cannot be read: %s: %s" % (
-                defi, rep, splits, "optional" if opt_list else "required", "optional" if opt_elem else "required",
+            return True, "LIST column (v%d pages, def=%r rep=%r pages split at %r, list %s, element %s) cannot be read: %s: %s" % (
+                version, defi, rep, splits, "optional" if opt_list else "required", "optional" if opt_elem else "required",
                 type(ex).__name__, str(ex)[:80])
         got = [x if x is None else [None if e is None else int(e) for e in x] for x in out]
         if got != want:
-            return True, "LIST column (def=%r rep=%r pages split at %r, list %s, element %s) reads as %r, record " \
-                         "assembly gives %r" % (defi, rep, splits, "optional" if opt_list else "required",
+            return True, "LIST column (v%d pages, def=%r rep=%r pages split at %r, list %s, element %s) reads as %r, " \
+                         "record assembly gives %r" % (version, defi, rep, splits, "optional" if opt_list else "required",
                                                 "optional" if opt_elem else "required", got, want)
         return False, "agrees"
     finally:
